@@ -745,8 +745,44 @@ func constCompare(cond ssa.Value, val bool) (other ssa.Value, c string, eq bool,
 // edges; neither dominates.  orGuardSet additionally reports, for a block with
 // several non-loop predecessors that are all conditional edges, the
 // disjunction of those edges.
+// orGuardSet: the alternatives under which the instruction's block is entered, and those
+// of the blocks that dominate it (what stands behind `if a && b { return }` is reached
+// when !a or !b holds, also where it is nested in further tests).
 func orGuardSet(in ssa.Instruction) string {
-	b := in.Block()
+	own := orGuardOfBlock(in.Block())
+	if own == "*" {
+		return own
+	}
+	parts := map[string]bool{}
+	if own != "" {
+		parts[own] = true
+	}
+	for a := in.Block().Idom(); a != nil; a = a.Idom() {
+		// not for a block that is entered from blocks it dominates (the head of a loop, reached by
+		// its `continue` edges): those alternatives say how the passes of the loop end, not under
+		// which decisions the code behind an early return runs
+		fromInside := false
+		for _, e := range controllingEdges(a) {
+			if a.Dominates(e.b) {
+				fromInside = true
+			}
+		}
+		if fromInside {
+			continue
+		}
+		if o := orGuardOfBlock(a); o != "" && o != "*" && strings.Contains(o, " || ") {
+			parts[o] = true
+		}
+	}
+	var l []string
+	for x := range parts {
+		l = append(l, x)
+	}
+	sort.Strings(l)
+	return strings.Join(l, " & ")
+}
+
+func orGuardOfBlock(b *ssa.BasicBlock) string {
 	var alts []string
 	sides := map[*ssa.BasicBlock]int{}
 	for _, e := range controllingEdges(b) {
